@@ -173,6 +173,9 @@ def build(s):
             for _ in range(n):
                 v = [v]
             return v
+        if what == "mixedlist_late":
+            # more than a thousand plain numbers first, something else at the very end
+            return list(range(n)) + [s.get("tail", "end")]
         if what == "tuplelist":
             return [(i, f"t{i}") for i in range(n)]
         raise ValueError(what)
